@@ -309,7 +309,10 @@ func (ip *FileIP) Param(key string) string {
 
 // Tag returns the tag for the tag with key k from the IPs audit info
 func (ip *FileIP) Tag(k string) string {
-	v, ok := ip.AuditInfo().Tags[k]
+	ai := ip.AuditInfo()
+	ip.lock.Lock()
+	v, ok := ai.Tags[k]
+	ip.lock.Unlock()
 	if !ok {
 		Warning.Printf("[FileIP:%s] No such tag: (%s)\n", ip.Path(), k)
 		return ""
@@ -317,14 +320,23 @@ func (ip *FileIP) Tag(k string) string {
 	return v
 }
 
-// Tags returns the audit info's tags
+// Tags returns (a copy of) the audit info's tags
 func (ip *FileIP) Tags() map[string]string {
-	return ip.AuditInfo().Tags
+	ai := ip.AuditInfo()
+	ip.lock.Lock()
+	defer ip.lock.Unlock()
+	tags := make(map[string]string)
+	for k, v := range ai.Tags {
+		tags[k] = v
+	}
+	return tags
 }
 
 // AddTag adds the tag k with value v
 func (ip *FileIP) AddTag(k string, v string) {
 	ai := ip.AuditInfo()
+	ip.lock.Lock()
+	defer ip.lock.Unlock()
 	if ai.Tags[k] != "" && ai.Tags[k] != v {
 		ip.Failf("Can not add value (%s) to existing tag (%s) with different value (%s)", v, k, ai.Tags[k])
 	}
@@ -357,7 +369,9 @@ func (ip *FileIP) SetAuditInfo(ai *AuditInfo) {
 // WriteAuditLogToFile writes the audit log to its designated file
 func (ip *FileIP) WriteAuditLogToFile() {
 	auditInfo := ip.AuditInfo()
+	ip.lock.Lock()
 	auditInfoJSON, jsonErr := json.MarshalIndent(auditInfo, "", "    ")
+	ip.lock.Unlock()
 	CheckWithMsg(jsonErr, "Could not marshall JSON")
 	ip.createDirs("")
 	writeErr := ioutil.WriteFile(ip.AuditFilePath(), auditInfoJSON, 0644)
@@ -372,6 +386,20 @@ func (ip *FileIP) AuditInfo() *AuditInfo {
 		ip.auditInfo = UnmarshalAuditInfoJSONFile(ip.AuditFilePath())
 	}
 	return ip.auditInfo
+}
+
+// auditInfoSnapshot returns a copy of the IP's AuditInfo with its own tags map,
+// which does not change when tags are later added to the IP
+func (ip *FileIP) auditInfoSnapshot() *AuditInfo {
+	ai := ip.AuditInfo()
+	ip.lock.Lock()
+	defer ip.lock.Unlock()
+	snapshot := *ai
+	snapshot.Tags = make(map[string]string)
+	for k, v := range ai.Tags {
+		snapshot.Tags[k] = v
+	}
+	return &snapshot
 }
 
 // UnmarshalAuditInfoJSONFile returns an AuditInfo object from an AuditInfo
